@@ -597,7 +597,9 @@ impl<K, V, S> Inner<K, V, S> {
 
     #[inline]
     fn set_valid_after(&self, timestamp: Instant) {
-        self.valid_after.set_instant(timestamp);
+        // Two threads can call `invalidate_all` at the same time. Never move the
+        // watermark backwards, or entries invalidated by the later call reappear.
+        self.valid_after.set_instant_if_later(timestamp);
     }
 
     #[inline]
